@@ -11,7 +11,7 @@ ID = "C03"
 LEVEL = "fault_enumeration"
 RULE = ("for authentic reference-built packets of chosen frame lengths: every single-bit flip at every bit position, every "
         "truncation length 0..n-1, all 255 substitutions of each start-marker / length-field byte, a catalogue of 16-bit length values (alone and with a corrupted payload byte), single-byte substitutions, random multi-byte corruptions, fed to _Packet.decode (and a sample "
-        "through LAN.send with the simulated device sending the corrupted packet, on V2 connections and tunnelled inside correctly tagged V3 encrypted responses, as the reply to the first transmission or to a retransmission after 1-2 lost ones). An authentic packet followed in the same chunk by other bytes (random, a second packet with or without its header, validly padded cipher blocks) must give a protocol error or exactly the signed frame. The authentic packet itself is accepted first and again every three corruptions (a receiver that remembers what it verified must still reject altered copies). Outcome classes: ProtocolError (required), "
+        "through LAN.send with the simulated device sending the corrupted packet, on V2 connections and tunnelled inside correctly tagged V3 encrypted responses, as the reply to the first transmission or to a retransmission after 1-2 lost ones, or arriving on its own after a genuine reply so that the next exchange finds it queued). An authentic packet followed in the same chunk by other bytes (random, a second packet with or without its header, validly padded cipher blocks) must give a protocol error or exactly the signed frame. The authentic packet itself is accepted first and again every three corruptions (a receiver that remembers what it verified must still reject altered copies). Outcome classes: ProtocolError (required), "
         "frame returned / other exception (violation). A corruption the reference still accepts as authentic is skipped and counted. "
         "distinct = (frame length, fault kind, position, value); all are non-trivial (the packet differs from an authentic one)")
 ASSUMPTIONS = ["a corruption producing a valid keyed MD5 by chance is skipped (none observed)",
@@ -55,7 +55,8 @@ def generate(ctx, rng):
         L = rng.choice(Q_LENGTHS)
         yield ("wire", j), {"frame": rng.randbytes(L), "id": rng.getrandbits(48), "filler": {}, "fault": "wire",
                             "wkind": rng.choice(["flip", "trunc", "subst", "multi", "len0"]), "mseed": rng.getrandbits(32),
-                            "version": 2 if j % 2 else 3, "drop_first": [0, 0, 0, 1, 2][j % 5]}
+                            "version": 2 if j % 2 else 3, "drop_first": [0, 0, 0, 1, 2][j % 5],
+                            "position": "late-extra" if j % 7 == 3 else "reply"}
 
 
 _since_authentic = [0]
@@ -239,6 +240,7 @@ def _wire(ctx, case, frame, pkt):
         dev.on_exchange = lambda conn, req, packets, meta: [(0, corrupted)]
 
     first = {"n": 0, "silent": 0}
+    late = case.get("position") == "late-extra"
     corrupt_hook = dev.on_exchange
 
     def on_exchange(conn, req, packets, meta):
@@ -246,6 +248,14 @@ def _wire(ctx, case, frame, pkt):
         if first["n"] == 1 and case["mseed"] % 2 == 0:
             # the authentic packet is delivered (and accepted) first, its altered copy on the next exchange
             good = pkt if version == 2 else __import__("mv.ref.v3", fromlist=["x"]).build_encrypted(conn.skey, pkt, 3, 3)
+            return [(0, good)]
+        if late:
+            # the altered packet is not the awaited reply: it arrives 0.3 s after a genuine reply (a spontaneous report hit by noise)
+            # and is found in the receive queue by the following exchange
+            first["late"] = first.get("late", 0) + 1
+            good = pkt if version == 2 else __import__("mv.ref.v3", fromlist=["x"]).build_encrypted(conn.skey, pkt, 5, 3)
+            if first["late"] == 1:
+                return [(0, good)] + [(0.3, p) for _, p in corrupt_hook(conn, req, packets, meta)]
             return [(0, good)]
         if first["silent"] < case.get("drop_first", 0):
             first["silent"] += 1      # this transmission is lost; the corrupted packet answers a retransmission
@@ -262,9 +272,15 @@ def _wire(ctx, case, frame, pkt):
             ok = await lan.send(b"\xaa\x0b\xac" + bytes(8))
             if [bytes(x) for x in ok] != [frame]:
                 raise AssertionError("authentic packet not accepted in the wire case")
+        if late:
+            import asyncio
+            ok = await lan.send(b"\xaa\x0b\xac" + bytes(8))
+            if [bytes(x) for x in ok] != [frame]:
+                raise AssertionError("authentic packet not accepted in the wire case")
+            await asyncio.sleep(1.0)
         return await lan.send(b"\xaa\x0b\xac" + bytes(8))
 
-    key = (len(frame), ("wire", k, case["mseed"], version, case.get("drop_first", 0)))
+    key = (len(frame), ("wire", k, case["mseed"], version, case.get("drop_first", 0), case.get("position")))
     try:
         got, loop = H.run_virtual(go, net)
     except ProtocolError:
